@@ -573,3 +573,8 @@ for _pre, _mod, _ps in [("c07", "vanilla_header", [0, 23]), ("c08", "tbc_header"
         H(_pre.upper(), _mod, "%s_call_long_p%d" % (_pre, _p), timeout=3600, tiers=["thorough"],
           encodes=["%s::encrypt::encrypt" % _mod, "%s::decrypt::decrypt" % _mod], inputs="key, previous, data [u8;260]: any; index = %d; n = 260" % _p,
           asserts="one 260-byte call equals 260 spec steps on both halves incl. the final position", bounds="n = 260 exactly, starting position %d; unwind 262" % _p, assumes=[])
+H("C17", "integrity", "c17_large_inputs", timeout=1800, oracle_features=["cap64", "q8"],
+  encodes=["integrity::login_integrity_check_generic", "integrity::login_integrity_check_windows", "integrity::login_integrity_check_mac"],
+  inputs="total size <= 200 000 bytes, four cut positions, salt, key: any (buffer contents irrelevant: zero)",
+  asserts="each function hands HMAC consecutive sub-slices that cover the whole input exactly once, in order (so chunked processing of large inputs loses or repeats nothing)",
+  bounds="total size <= 200 000; unwind 42 (at most 41 chunks per file)", assumes=["HMAC model in span mode: message bytes are not copied, only their provenance is recorded"])
